@@ -92,10 +92,11 @@ def r_keykinds(ctx):
         ctx.ob("R-KEYKINDS", key + "::closed", closed, "any other key raises" if closed else "a key of another kind is silently ignored", loc(c.fn, c.loop))
         # leaf: addressed by the key's own index; pair: by the two points' own indices
         if "leaf" in c.kinds:
-            idx = _indices_used(c.kinds["leaf"], ("F_value", "Fweights", "Fweights_ind"))
-            ok = all(i == [c.key + ".counter"] for i in idx) and (bool(idx) or _calls_eval_on(c.kinds["leaf"], c.key))
+            owners = [dotted(n.value) for n in ast.walk(ast.Module(body=c.kinds["leaf"], type_ignores=[])) if isinstance(n, ast.Attribute) and n.attr == "counter"]
+            ok = all(o == c.key for o in owners) and (bool(owners) or _calls_eval_on(c.kinds["leaf"], c.key))
             ctx.ob("R-KEYKINDS", key + "::leaf by own index", ok,
-                   "a leaf expression is addressed by its own index (or evaluated itself)" if ok else "leaf expression addressed by %s" % idx, loc(c.fn, c.kinds["leaf"][0]))
+                   "a leaf expression is addressed by its own index (or evaluated itself)" if ok else
+                   "the leaf-expression branch uses the index of %s" % sorted(set(o for o in owners if o != c.key)), loc(c.fn, c.kinds["leaf"][0]))
         if "pair" in c.kinds:
             body = c.kinds["pair"]
             un = [s for s in body if isinstance(s, ast.Assign) and isinstance(s.targets[0], ast.Tuple) and dotted(s.value) == c.key and len(s.targets[0].elts) == 2]
